@@ -69,7 +69,9 @@ LEVEL_TEXT = ('Machine-checked for every pattern of C01\'s sublanguage and value
               'the pattern -- matching that decoded path with the same compiled pattern returns exactly the '
               'stringified values, the remainder as the supplied segments (normalised by split_path_info otherwise; followed by '
               'the extra elements when there are any); a '
-              'placeholder without a value gives KeyError; route_url = scheme://authority + route_path; generation is independent '
+              'placeholder without a value gives KeyError; route_url = scheme://authority + route_path (the scheme://netloc form of '
+              'webob host_url is proved for clean HTTP_HOST / SERVER_NAME / SERVER_PORT, so route_url leads back to the values end '
+              'to end); separability implies the "only way" hypothesis; generation is independent '
               'of earlier generations in the process (_segment_cache) and, on one request object, of earlier generations and '
               'earlier SCRIPT_NAMEs (each call = the function of the current environ).  The generator closure run by the '
               'extracted model is the one translated from the source under test and proved equal to the reference model.  For '
